@@ -10,6 +10,10 @@ CLAIMED = {
          "held on the executions observed: every (source site, sink site) pair at which the monitor saw the source's marker arrive, over all 2^6 opaque inputs of each generated chain, is reported under each soundness-preserving configuration; misses are attributed through re-executed minimal sub-chains to listed known findings or reported. Exploration, not proof: constructs outside the link library and longer interactions are not covered.",
          "Go toolchain and runtime; the stub/native end-point functions differ only in bodies irrelevant by specification; marker containment implies explicit flow; mechanical fragment guard (waives, never accuses)",
          "DESIGN.md §2, §7 C01"),
+ "C16": ("runtime monitoring: every enumerated function body is executed natively under every decision tape (all CFG paths up to the tape length); the recorded (exit, executed-defer-sequence) sets and the 'a defer ran twice' flag are compared with defers.AnalyzeFunction",
+         "exhaustive over all function bodies up to the stated size bound (every path of each, by lazy tape enumeration up to 12 decisions, 18 before a reported stack is called spurious), sampled beyond: per exit the reported stack set equals the observed set, and bounded <=> no execution repeats a defer statement. Exact (both inclusions) on everything enumerated; nothing is claimed for larger bodies than those sampled.",
+         "Go toolchain; opaque decisions make every CFG path feasible; exits/defer statements identified through constant marker arguments in the SSA",
+         "DESIGN.md §7 C16"),
 }
 PENDING_REASON = "check not built yet at this commit (work in progress; see DESIGN.md §7 for the planned runtime monitor)"
 
